@@ -1,5 +1,8 @@
 // based on https://stackoverflow.com/a/70840233
 pub fn linspace(x0: f64, xend: f64, n: usize) -> Vec<f64> {
+    if n == 0 {
+        return vec![];
+    }
     let dx = (xend - x0) / ((n - 1) as f64);
     let mut x = vec![x0; n];
     for i in 1..n {
